@@ -6,7 +6,7 @@ import os
 import subprocess
 import sys
 
-from ..common import short
+from ..common import short, cpu_timebox, CaseTimeout
 
 PROP = 'C15'
 RULE = (
@@ -37,7 +37,7 @@ ASSUMPTIONS = [
     "sys.path and PYTHONHASHSEED.",
 ]
 MIN_NONTRIVIAL = {'quick': 1000, 'thorough': 30000}
-REQUIRED_MONITORS = ['battery', 'baseline', 'shadow-cache:compare',
+REQUIRED_MONITORS = ['battery', 'baseline', 'baseline:other-order', 'shadow-cache:compare',
                      'shadow-cache:stored', 'fresh-object', 'state-audit']
 SHARD_TIMEOUT = {'quick': 600, 'thorough': 5400}
 
@@ -76,6 +76,7 @@ OTHER = ["T154N-R97W Sec 14: NE/4", "T154-R97 Sec 14: NE/4, Sec 15: Lots 1 - 3",
 # one Config object that every battery re-uses (a caller may legitimately
 # share one Config among many descriptions).
 _LONG_LIVED = {}
+BATTERY_CPU_BOX_S = 30
 
 
 def long_lived(pytrs):
@@ -87,68 +88,118 @@ def long_lived(pytrs):
     return _LONG_LIVED
 
 
-def battery(pytrs):
+def probes(pytrs):
+    """The battery as a list of independent thunks, in canonical order."""
     P, T = pytrs.PLSSDesc, pytrs.Tract
-    out = []
     ll = long_lived(pytrs)
+    out = []
+    add = out.append
     # An old object must follow the MasterConfig in force NOW.
-    out.append([ll['tract'].set_twprgesec(154, 97, 14),
-                T('y').set_twprgesec(7, 9, 1)])
+    add(lambda: [ll['tract'].set_twprgesec(154, 97, 14),
+                 T('y').set_twprgesec(7, 9, 1)])
+
     # A shared Config object configures every description the same way.
-    for txt in ("T154N-R97W Sec 14: NE/4, NE", "T154N-R97W Sec 1: N/2NE/4NE/4"):
+    def shared_cfg(txt):
         d = P(txt, config=ll['cfg'])
-        out.append([(t.trs, t.lots, t.qqs) for t in d.tracts])
-        out.append(ll['cfg'].decompile_to_text())
-    d = P("T154N-R97W Sec 14: NE/4, Sec 15: W/2", config=ll['cfg_layout'])
-    out.append([d.current_layout, [(t.trs, t.desc) for t in d.tracts],
-                ll['cfg_layout'].decompile_to_text()])
+        return [[(t.trs, t.lots, t.qqs) for t in d.tracts],
+                ll['cfg'].decompile_to_text()]
+    for txt in ("T154N-R97W Sec 14: NE/4, NE", "T154N-R97W Sec 1: N/2NE/4NE/4"):
+        add(lambda txt=txt: shared_cfg(txt))
+
+    def shared_layout():
+        d = P("T154N-R97W Sec 14: NE/4, Sec 15: W/2", config=ll['cfg_layout'])
+        return [d.current_layout, [(t.trs, t.desc) for t in d.tracts],
+                ll['cfg_layout'].decompile_to_text()]
+    add(shared_layout)
     # Functions whose result may not depend on earlier calls with other
     # arguments (history step 'api-variants' makes those).
-    out.append([pytrs.find_twprge("TlS4N-RIOOW Sec 14: NE/4", ocr_scrub=True),
-                pytrs.find_twprge("T154-R97 Sec 1", preprocess=True,
-                                  default_ns='s', default_ew='e'),
-                pytrs.find_twprge("T154-R97 Sec 1")])
-    for txt, cfg in PROBE_PLSS:
+    add(lambda: pytrs.find_twprge("TlS4N-RIOOW Sec 14: NE/4", ocr_scrub=True))
+    add(lambda: pytrs.find_twprge("T154-R97 Sec 1", preprocess=True,
+                                  default_ns='s', default_ew='e'))
+    add(lambda: pytrs.find_twprge("T154-R97 Sec 1"))
+    add(lambda: pytrs.find_twprge("TlS4N-RIOOW Sec 14: NE/4"))
+
+    def plss(txt, cfg):
         d = P(txt, config=cfg)
-        out.append([d.pp_desc, d.current_layout,
-                    sorted(map(str, d.w_flags)), sorted(map(str, d.e_flags)),
-                    [(t.trs, t.desc, t.lots, t.qqs, t.twp, t.rge_num,
-                      t.sec_num, t.orig_index) for t in d.tracts]])
-    for desc, cfg in PROBE_TRACT:
+        return [d.pp_desc, d.current_layout,
+                sorted(map(str, d.w_flags)), sorted(map(str, d.e_flags)),
+                [(t.trs, t.desc, t.lots, t.qqs, t.twp, t.rge_num,
+                  t.sec_num, t.orig_index) for t in d.tracts]]
+    for txt, cfg in PROBE_PLSS:
+        add(lambda txt=txt, cfg=cfg: plss(txt, cfg))
+
+    def tract(desc, cfg):
         t = T(desc, trs='154n97w14', config=cfg, parse_qq=True)
-        out.append([t.lots, t.qqs, t.pp_desc, t.trs, t.twp_num,
-                    sorted(t.w_flags), sorted(t.lot_acres.items())])
-    for s in PROBE_TRS:
+        return [t.lots, t.qqs, t.pp_desc, t.trs, t.twp_num,
+                sorted(t.w_flags), sorted(t.lot_acres.items())]
+    for desc, cfg in PROBE_TRACT:
+        add(lambda desc=desc, cfg=cfg: tract(desc, cfg))
+
+    def trs(s):
         t = pytrs.TRS(s)
-        out.append([t.trs, t.twp, t.rge, t.sec, t.twp_num, t.rge_num,
-                    t.sec_num, t.twp_undef, t.rge_undef, t.sec_undef,
-                    bool(t.is_error()), bool(t.is_undef())])
-        out.append(sorted(pytrs.trs_to_dict(s).items(), key=str))
-        out.append(T('x', trs=s).trs)
+        return [[t.trs, t.twp, t.rge, t.sec, t.twp_num, t.rge_num,
+                 t.sec_num, t.twp_undef, t.rge_undef, t.sec_undef,
+                 bool(t.is_error()), bool(t.is_undef())],
+                sorted(pytrs.trs_to_dict(s).items(), key=str),
+                T('x', trs=s).trs]
+    for s in PROBE_TRS:
+        add(lambda s=s: trs(s))
+
     # One long-lived TRS object, re-assigned again and again.
-    o = ll['trs']
-    for s in PROBE_TRS + ['2s3e04']:
+    def reassign(s):
+        o = ll['trs']
         o.trs = s
-        out.append([o.trs, o.twp, o.rge_num, o.sec, bool(o.is_error())])
-    out.append([o.set_twprgesec(154, 97, 14), o.trs, o.twp_num,
-                o.set_twprgesec('7s', '9e', None), o.trs, o.sec_undef])
-    out.append([pytrs.TRS.from_twprgesec(154, 97, 14).trs,
-                pytrs.TRS.from_twprgesec('7', '9', 1).trs,
-                T.from_twprgesec('x', 5, 6, 7).trs,
-                pytrs.TRS.from_twprgesec('5s', 6, '07').trs])
-    out.append([pytrs.find_twprge("T154-R97 and 7N-9", preprocess=True),
-                pytrs.find_twprge("T154N-R97W, T7-R9E"),
-                pytrs.find_sec("Sec 3 - 1, 5")])
-    a = [T('a', trs='1n1w03'), T('b', trs='1n1w01'), T('c', trs='1n1w02')]
-    tl = pytrs.TractList([a[2], a[0], a[1]])
-    tl.custom_sort('i')
-    out.append([t.desc for t in tl])
-    tl.custom_sort('s')
-    out.append([t.desc for t in tl])
+        return [o.trs, o.twp, o.rge_num, o.sec, bool(o.is_error())]
+    for s in PROBE_TRS + ['2s3e04']:
+        add(lambda s=s: reassign(s))
+
+    def setter():
+        o = ll['trs']
+        return [o.set_twprgesec(154, 97, 14), o.trs, o.twp_num,
+                o.set_twprgesec('7s', '9e', None), o.trs, o.sec_undef]
+    add(setter)
+    add(lambda: [pytrs.TRS.from_twprgesec(154, 97, 14).trs,
+                 pytrs.TRS.from_twprgesec('7', '9', 1).trs,
+                 T.from_twprgesec('x', 5, 6, 7).trs,
+                 pytrs.TRS.from_twprgesec('5s', 6, '07').trs])
+    add(lambda: [pytrs.find_twprge("T154-R97 and 7N-9", preprocess=True),
+                 pytrs.find_twprge("T154N-R97W, T7-R9E"),
+                 pytrs.find_sec("Sec 3 - 1, 5")])
+
+    def sorting():
+        a = [T('a', trs='1n1w03'), T('b', trs='1n1w01'), T('c', trs='1n1w02')]
+        tl = pytrs.TractList([a[2], a[0], a[1]])
+        tl.custom_sort('i')
+        first = [t.desc for t in tl]
+        tl.custom_sort('s')
+        return [first, [t.desc for t in tl]]
+    add(sorting)
+    return out
+
+
+def battery(pytrs, order=None):
+    """
+    Outcome of every probe, listed in canonical order whatever the order of
+    execution. `order`: None (canonical), 'reverse', an int (seed of a
+    shuffle) or a random.Random that shuffles -- a probe's answer may not depend on which probes ran before
+    it, inside one battery as little as across the history.
+    """
+    ps = probes(pytrs)
+    idx = list(range(len(ps)))
+    if order == 'reverse':
+        idx.reverse()
+    elif isinstance(order, int):
+        import random
+        random.Random(order).shuffle(idx)
+    elif order is not None:
+        order.shuffle(idx)
+    out = [None] * len(ps)
+    for i in idx:
+        out[i] = ps[i]()
     return json.loads(json.dumps(out, default=str))
 
 
-def baseline(ns, ew):
+def baseline(ns, ew, order=None):
     """Battery outcome in a fresh interpreter with MasterConfig = (ns, ew)."""
     code = (
         "import sys, json\n"
@@ -156,7 +207,7 @@ def baseline(ns, ew):
         "from pv.props.c15 import battery\n"
         f"pytrs.MasterConfig.default_ns = {ns!r}\n"
         f"pytrs.MasterConfig.default_ew = {ew!r}\n"
-        "print(json.dumps(battery(pytrs)))\n")
+        f"print(json.dumps(battery(pytrs, {order!r})))\n")
     cp = subprocess.run([sys.executable, '-c', code], capture_output=True,
                         text=True, timeout=120, env=dict(os.environ))
     if cp.returncode != 0:
@@ -387,6 +438,23 @@ def run_shard(shard, ctx):
         for ew in 'ew':
             base[(ns, ew)] = baseline(ns, ew)
             ctx.hit('baseline')
+    # Two fresh interpreters that run the probes in opposite orders must
+    # agree probe by probe (otherwise a probe's answer depends on which
+    # probes ran before it -- the baseline itself would hide that).
+    for order in ['reverse'] + [1000 * shard['i'] + k for k in range(4)]:
+        other = baseline('n', 'w', order)
+        ctx.hit('baseline:other-order')
+        if other != base[('n', 'w')]:
+            i, x, y = first_diff(other, base[('n', 'w')])
+            ctx.violation(
+                'result-depends-on-history',
+                {'shard': shard, 'history': [f'<battery in order {order!r} '
+                                             f'in a fresh interpreter>']},
+                f"probe #{i} gives {short(repr(x), 220)} when the battery "
+                f"runs in order {order!r} in a fresh interpreter but "
+                f"{short(repr(y), 220)} in canonical order",
+                dedup=f"order|{i}")
+            return
     # A cold battery in this process must already equal the baseline.
     MC = pytrs.MasterConfig
     kept, history = [], []
@@ -417,8 +485,24 @@ def run_shard(shard, ctx):
                  sample={'step': step, 'op': op,
                          'master': [MC.default_ns, MC.default_ew],
                          'globals_touched': changed[:6]})
+        try:
+            with cpu_timebox(BATTERY_CPU_BOX_S):
+                with ctx.guard(case):
+                    got = battery(pytrs, rng if step % 2 else None)
+        except CaseTimeout:
+            # A battery normally takes well under a second. One that needs
+            # minutes means the history made the library slow (C16's
+            # subject, not C15's): stop here. With violations already seen
+            # the verdict stands; without any the shard must not count as
+            # 'held', so the worker fails and the run is INCONCLUSIVE.
+            ctx.hist['stopped-battery-too-slow'] += 1
+            if ctx.n_violations:
+                break
+            ctx.checkpoint()
+            raise RuntimeError(
+                f"battery after step {step} ({op}) exceeded "
+                f"{BATTERY_CPU_BOX_S} s of CPU time; no verdict")
         with ctx.guard(case):
-            got = battery(pytrs)
             ctx.hit('battery')
             want = base[(MC.default_ns, MC.default_ew)]
             if got != want:
@@ -432,7 +516,7 @@ def run_shard(shard, ctx):
                     f"gives {short(repr(y), 220)}", dedup=f"{op}|{i}")
         if step % 25 == 24:
             shadow.compare(case)
-        if ctx.n_violations >= 8:
+        if ctx.n_violations >= 3:
             # The verdict is decided; a history that keeps diverging (or
             # keeps getting slower) need not be walked to its end.
             ctx.hist['stopped-after-enough-violations'] += 1
